@@ -659,11 +659,8 @@ def pick_chunkings(item, rng, k):
     if big:                                   # keep the number of chunks of large streams moderate
         alls = [s for s in alls if len(s) <= 600]
     if item['f1']:
-        alls = f1_chunkings(item) + alls
-        k = max(k, 9)
-        head = alls[:9]
-        rest = alls[9:]
-        return head + (rng.sample(rest, min(len(rest), k - 9)) if k > 9 else [])
+        head = f1_chunkings(item)
+        return head + rng.sample(alls, min(len(alls), max(1, k - len(head))))
     first = [alls[0]]
     rest = alls[1:]
     if big:
